@@ -8,6 +8,8 @@ Streams
         (every float operation inside nibabel is exact on these inputs: dyadic grids whose range is
         (shared type range) * 2**k, power-of-two slopes, float32-representable intercepts)
   general                                                       -> oracle only (exact Fraction arithmetic)
+  readers (exhaustive) / rt-exact / rt-decisions / rt-general   -> header readers on every field state; construction
+        routes x donor header states x images loaded from crafted files x pre-save get_fdata histories (Model/C02_Route)
 """
 import io
 import math
@@ -59,6 +61,20 @@ THEOREMS = [
     'Nb.C02.save_header_accepts',
     'Nb.C02.nan_fill_bound',
     'Nb.C02.iu2iu_exact_int',
+    # construction routes, header fields on disk, readers, get_fdata histories (Model/C02_Route)
+    'Nb.C02.reader_inverts_writer',
+    'Nb.C02.spm2_stale_intercept_orig_counterexample',
+    'Nb.C02.reader_inverts_pre_fix_spm2_writer',
+    'Nb.C02.reader_flat_counterexample',
+    'Nb.C02.route_invisible',
+    'Nb.C02.save_ignores_working_copies',
+    'Nb.C02.save_from_cache_counterexample',
+    'Nb.C02.load_data_spec',
+    'Nb.C02.Gen.slot_table_ok',          # the five tables below are REGENERATED from /repo by regen()
+    'Nb.C02.Gen.conv_table_ok',
+    'Nb.C02.Gen.reset_table_ok',
+    'Nb.C02.Gen.set_table_ok',
+    'Nb.C02.Gen.reader_table_ok',
 ]
 ASSUMPTIONS = [
     'hand-written Lean model of arraywriters / array_to_file / shared_range / header refusals (Model/C02.lean) in exact '
@@ -80,6 +96,15 @@ ASSUMPTIONS = [
     'the whole history is)',
     'caller-fixed scaling (slope / inter preset in the header): nibabel documents "array written as it is"; the oracle '
     'there checks no wrap-around / no undefined cast / stored scaling = preset, not the half-step bound',
+    'Model/C02_Route.lean (hand-written): raw header fields, from_header by field NAME, the constructor reset, '
+    'set_slope_inter at field level, get_slope_inter of every header class incl. the SPM2 gl/cal fallback, ArrayProxy '
+    'None -> 1/0, and an alias model of get_fdata / _fdata_cache; tied to the code by the rt-* / readers streams and by '
+    'Generated/C02Readers.lean (five decision tables evaluated on the working tree each run, model proved equal on '
+    'every row); float32 storage of the fields, the dtype of the loaded array (NumPy promotion, modelled as loadedIn) '
+    'and the float conversion inside get_fdata(dtype=...) (a parameter `cast`) are not verified',
+    'oracle references for the rt-* / readers streams: a reader table written from the format descriptions '
+    '(ref_read_si) and a reference of which arrays alias the image data (ref_history); crafted files are built by '
+    'patching the two float slots (and gl/cal fields) into the bytes of a header nibabel wrote',
 ]
 RULE = ('tfm-* streams: ~55% of all save cases are re-run as a to_file_map HISTORY on one image: on-disk type chosen by '
         'the dtype= SAVE ARGUMENT (header holding the array dtype = fresh image, or any other supported type) or by the '
@@ -101,7 +126,18 @@ RULE = ('tfm-* streams: ~55% of all save cases are re-run as a to_file_map HISTO
         'array_to_file stream with free dyadic (slope, inter, mn, mx) incl. thresholds far outside the type range; '
         'general stream: float16/32/64 and (u)int8..64 inputs (constants, one-sided ranges touching type limits, '
         '1e-40..1e38, non-float32 values, NaN/inf mixtures, all-NaN, all-zero).  A case is non-trivial when scaling is '
-        'needed (or refused); distinct by (op, class, in dtype, out dtype, values).')
+        'needed (or refused); distinct by (op, class, in dtype, out dtype, values).  '
+        'readers stream (EXHAUSTIVE): 7 header classes x slope field {valid +-, 1, 0, NaN, +-inf} x intercept field '
+        '{finite, 0, NaN, +-inf} (x 5 gl/cal states for SPM2) read back through write_to / from_fileobj; '
+        'rt-* streams (30% of all save cases re-run in the quick tier, 15% in the others): target class x donor class (every ordered pair of the 7 Analyze-family '
+        'classes + MGH donors) x route {own-class header, from_image, K(data, aff, header=donor image header), raw donor '
+        'header as read from a file, from_header} x donor scale fields in any state (valid / 0 / NaN / +-inf slope, '
+        'finite / 0 / NaN / +-inf intercept, ordinary fresh states) x data source {in-memory array | FILE crafted with '
+        'those fields (+ SPM2 gl/cal) and loaded = scaled array proxy} x direct assignment to the non-consumable slot 2 '
+        'x pre-save history of 0-5 steps {get_fdata(float16/32/64, fill/unchanged), in-place zero / clip / negate of the '
+        'returned array, uncache, in-place edit of np.asanyarray(img.dataobj)} x header dtype / dtype= argument x '
+        '{to_file_map, to_filename, to_bytes}; observable = slope / inter as the READER of the target class gets them '
+        'from disk, raw integers, the raw float slots on disk and in the image header afterwards.')
 
 PENDING_FINDINGS = [
     {'property': 'C02', 'signature': 'mgh:out-of-range-clipped-not-refused', 'status': 'open',
@@ -448,6 +484,12 @@ def case_from_data(d):
                       d.get('shape'), d.get('order', 'C'), d.get('sp', 'dtype'), d.get('view', False))
     if d['op'] == 'fr':
         return mk_fr(d['in'], d['vals'], d.get('shape'), d.get('order', 'C'))
+    if d['op'] == 'rd':
+        return mk_rd(d['kls'], d['F'][0], d['F'][1], d.get('gl'))
+    if d['op'] == 'rt':
+        return mk_rt(d['kls'], d['dkls'], d['route'], d.get('via', 'ctor'), d['F'], d.get('gl'), d.get('post'),
+                     d.get('pre') or [], d['src'], d['in'], d['vals'], d['hd'], d.get('arg'), d.get('how', 'tfm'),
+                     d.get('stream', 'corpus'))
     if d['op'] == 'a2f':
         f = lambda x: None if x is None else Fr(x)
         return mk_a2f(d['in'], d['out'], Fr(d['s']), Fr(d['b']), f(d['mn']), f(d['mx']), d['n2z'], d['vals'],
@@ -677,6 +719,8 @@ def run_any(d, case):
     """result line `ok s b [raw]` / `ERR:…` of a save-like case (without the header tail)"""
     if d['op'] == 'tfm':
         return split_h(run_tfm(d, case))[0]
+    if d['op'] == 'rt':
+        return run_rt(d, case).split(' H ')[0].split(' D ')[0]
     return run_save(d, case)
 
 
@@ -743,6 +787,10 @@ def impl(case):
         return out
     if d['op'] == 'a2f':
         return run_a2f(d)
+    if d['op'] == 'rt':
+        return impl_rt(case)
+    if d['op'] == 'rd':
+        return run_rd(d)
     from nibabel import casting
     if d['op'] == 'fr':
         from nibabel.volumeutils import finite_range as nib_finite_range
@@ -990,6 +1038,10 @@ def oracle(case, out):
     d = case.data
     if d['op'] == 'tfm':
         return oracle_tfm(case, out)
+    if d['op'] == 'rt':
+        return oracle_rt(case, out)
+    if d['op'] == 'rd':
+        return oracle_rd(case, out)
     if d['op'] == 'save':
         return oracle_save(case, out)
     if d['op'] == 'var':
@@ -1015,27 +1067,39 @@ def oracle(case, out):
     return None
 
 
+def _eff_input(d):
+    """(input dtype name, parsed values) of the data the observed save writes"""
+    if d['op'] == 'rt':
+        ex = rt_expect(d)
+        return ex['in_eff'], ex['vals']
+    return d['in'], [parse_val(s, d['in']) for s in d['vals']]
+
+
 def signature(case, what):
     d = case.data
-    if d['op'] not in ('save', 'var', 'tfm'):
+    if d['op'] == 'rd':
+        return 'reader:' + HK_OF[d['kls']]
+    if d['op'] == 'rt' and (what.startswith('reader:') or 'loading a' in what or 'documented refusal' in what):
+        return 'reader:' + HK_OF.get(d['dkls'], 'mgh')
+    if d['op'] not in ('save', 'var', 'tfm', 'rt'):
         return 'C02:' + d['op']
     if d['op'] == 'tfm' and (d['sl'] is not None or d['it'] is not None):
         return f'preset-scaling:{d["cls"]}'
-    vals = [parse_val(s, d['in']) for s in d['vals']]
+    in_name, vals = _eff_input(d)
     wrote = 'raised an unexpected' not in what
     fin = [v for v in vals if isinstance(v, Fr)]
     if (d['cls'] in ('analyze', 'mgh') and wrote and 'inf must reload' in what and fin and all(v == 0 for v in fin)):
         return 'noscale:inf-with-all-zero-finite'
-    if (d['in'] in ('int64', 'uint64') and wrote and ('finite value must reload' in what or 'wrap-around' in what)
+    if (in_name in ('int64', 'uint64') and wrote and ('finite value must reload' in what or 'wrap-around' in what)
             and any(isinstance(v, Fr) and abs(v) > 2 ** 53 for v in vals)):
         # narrow: the failure must vanish once the float64 rounding of the 64-bit input itself is allowed
         if _passes_with_input_rounding(case):
             return 'int64:beyond-float64-precision'
-    if d['cls'] == 'mgh' and wrote and scaling_needed(d['in'], d['out'], vals):
+    if d['cls'] == 'mgh' and wrote and scaling_needed(in_name, d['out'], vals):
         return 'mgh:out-of-range-clipped-not-refused'
     kind = 'wrap' if 'wrap' in what else 'nan' if 'NaN must' in what else 'inf' if 'inf must' in what else \
         'warning' if 'RuntimeWarning' in what else 'exception' if 'unexpected' in what else 'error-bound'
-    return f'scaling:{d["cls"]}:{kind}'
+    return f'{"route" if d["op"] == "rt" else "scaling"}:{d["cls"]}:{kind}'
 
 
 def _passes_with_input_rounding(case):
@@ -1045,7 +1109,7 @@ def _passes_with_input_rounding(case):
     if not out.startswith('ok ') or ' W:' in out:
         return False
     s, b, raws, _ = parse_ok(out)
-    vals = [parse_val(v, d['in']) for v in d['vals']]
+    _, vals = _eff_input(d)
     for v, q in zip(vals, raws):
         if not isinstance(v, Fr):
             continue
@@ -1065,6 +1129,9 @@ def shrink_candidates(case):
     """drop one value at a time, keeping only candidates that fail with the SAME signature (so that shrinking a new
     violation can never slide into the input of a known finding)"""
     d = case.data
+    if d['op'] == 'rt':
+        yield from _shrink_rt(case)
+        return
     if d['op'] not in ('save', 'a2f', 'var', 'tfm'):
         return
     try:
@@ -1131,6 +1198,42 @@ def shrink_candidates(case):
                     yield c2
             except Exception:
                 continue
+
+
+def _shrink_rt(case):
+    d = case.data
+    try:
+        sig0 = _failure_sig(case)
+    except Exception:
+        return
+    simp = []
+    pre = d.get('pre') or []
+    for i in range(len(pre)):
+        simp.append(dict(d, pre=pre[:i] + pre[i + 1:]))
+    if d.get('post') is not None:
+        simp.append(dict(d, post=None))
+    if d.get('how', 'tfm') != 'tfm':
+        simp.append(dict(d, how='tfm'))
+    if d['route'] != 'same':
+        simp.append(dict(d, route='same', via='ctor', dkls=d['kls']))
+    if d.get('gl') is not None:
+        simp.append(dict(d, gl=None))
+    ordinary = ['nan', 'nan'] if HK_OF.get(d['dkls']) == 'nifti' else ['1', '0']
+    if d['F'] != ordinary and d['src'] == 'arr':
+        simp.append(dict(d, F=ordinary))
+    if d.get('arg') is not None and d['hd'] != d['arg']:
+        simp.append(dict(d, hd=d['arg'], arg=None))
+    vs = d['vals']
+    if len(vs) > 1:
+        for i in range(len(vs)):
+            simp.append(dict(d, vals=vs[:i] + vs[i + 1:]))
+    for d2 in simp:
+        try:
+            c2 = case_from_data(d2)
+            if sig0 is None or _failure_sig(c2) == sig0:
+                yield c2
+        except Exception:
+            continue
 
 
 # --------------------------------------------------------------------------- generators
@@ -1690,6 +1793,582 @@ def tfm_variant(rng, c):
     return t
 
 
+# --------------------------------------------------------------------------- routes / readers / get_fdata histories
+#
+# `rt` cases: WHERE the saved image and its header come from (class conversion, donor headers in any scaling state,
+# images loaded from files written with scaling), what happened to the image before the save (get_fdata with any float
+# dtype / caching mode, in-place edits of the arrays it hands out, uncache), and what the READER of the target class
+# makes of the header the save put on disk.  `rd` cases: every header reader on every combination of field states.
+
+HK_OF = {'Nifti1Image': 'nifti', 'Nifti1Pair': 'nifti', 'Nifti2Image': 'nifti', 'Nifti2Pair': 'nifti',
+         'Spm99AnalyzeImage': 'spm99', 'Spm2AnalyzeImage': 'spm2', 'AnalyzeImage': 'analyze'}
+ALL_KLS = list(HK_OF)
+CLS_OF_HK = {'nifti': 'nifti', 'spm99': 'spm', 'spm2': 'spm2', 'analyze': 'analyze'}
+FT_NAME = {'f16': 'float16', 'f32': 'float32', 'f64': 'float64'}
+SPECIAL_FLD = ('nan', 'inf', '-inf')
+
+
+MGH_KLS = 'MGHImage'
+MGH_TYPES = ['uint8', 'int16', 'int32', 'float32']
+
+
+def _kls(name):
+    import nibabel as nib
+    if name == MGH_KLS:
+        from nibabel.freesurfer.mghformat import MGHImage
+        return MGHImage
+    return getattr(nib, name)
+
+
+def model_donor(dkls, F):
+    """(model class token, fields) of a donor.  An MGH header has neither slot under any name, so a header converted
+    from it holds the target's defaults — in the model: a donor of class `analyze` whose two slots hold (0, 0) (nothing
+    copied into scl_* targets; zeros = the defaults for the funused* targets)."""
+    if dkls == MGH_KLS:
+        return 'analyze', ['0', '0']
+    return HK_OF[dkls], list(F)
+
+
+def slot_names(klass):
+    """names the header class of image class `klass` gives the two float slots NOW (read from the working tree)"""
+    n = klass.header_class.template_dtype.names
+    return ('scl_slope' if 'scl_slope' in n else 'funused1', 'scl_inter' if 'scl_inter' in n else 'funused2')
+
+
+def fld_float(s):
+    return float(s) if s in SPECIAL_FLD else float(Fr(s))
+
+
+def fld_str(x):
+    x = float(x)
+    if math.isnan(x):
+        return 'nan'
+    if math.isinf(x):
+        return 'inf' if x > 0 else '-inf'
+    return fr_str(Fr(x))
+
+
+def fld_kind(x):
+    s = fld_str(x)
+    return s if s in SPECIAL_FLD else '0' if Fr(s) == 0 else 'v'
+
+
+def ref_read_si(hk, sF, iF, gl):
+    """REFERENCE of the header readers (independent of nibabel; from the format descriptions in the docstrings):
+    returns 'err' (loud refusal) or (slope | None, inter | None) as Fractions."""
+    valid = sF not in SPECIAL_FLD and Fr(sF) != 0
+    if hk == 'analyze':
+        return (None, None)
+    if hk == 'spm99':
+        return (Fr(sF), None) if valid else (None, None)
+    if hk == 'nifti':
+        if not valid:
+            return (None, None)
+        return 'err' if iF in SPECIAL_FLD else (Fr(sF), Fr(iF))
+    if valid:                                   # SPM2: a non-finite intercept next to a valid slope counts as 0
+        return (Fr(sF), Fr(0) if iF in SPECIAL_FLD else Fr(iF))
+    if gl is not None:
+        glmax, glmin, cmax, cmin = (Fr(x) for x in gl)
+        if glmax - glmin != 0 and cmax - cmin != 0:
+            s = (cmax - cmin) / (glmax - glmin)
+            return (s, cmin - s * glmin)
+    return (None, None)
+
+
+def ref_proxy_si(hk, sF, iF, gl):
+    r = ref_read_si(hk, sF, iF, gl)
+    if r == 'err':
+        return None
+    return (Fr(1) if r[0] is None else r[0], Fr(0) if r[1] is None else r[1])
+
+
+def ref_edit(e, v):
+    if e == 'zero':
+        return Fr(0)
+    if e == 'clip0':
+        return Fr(0) if v == '-inf' else v if isinstance(v, str) else max(v, Fr(0))
+    if e == 'neg':
+        return {'nan': 'nan', 'inf': '-inf', '-inf': 'inf'}[v] if isinstance(v, str) else -v
+    raise ValueError(e)
+
+
+def ref_history(pre, is_proxy, arr_dt, vals):
+    """REFERENCE of what the image's data are after the pre-save history: an array handed out by get_fdata is the
+    image's own array only for an array image asked for the dtype its array already has; np.asanyarray(img.dataobj) is
+    the image's own array for every array image; everything else is a separate working copy."""
+    data, cache, last = list(vals), None, None
+    for op in pre:
+        t = op.split('.')
+        if t[0] == 'fd':
+            dt = FT_NAME[t[1]]
+            if cache is not None and cache[0] == dt:
+                last = cache[1]
+            else:
+                last = 'own-array' if (not is_proxy and arr_dt == dt) else 'copy'
+                if t[2] == '1':
+                    cache = (dt, last)
+        elif t[0] == 'ed':
+            if last == 'own-array':
+                data = [ref_edit(t[1], v) for v in data]
+        elif t[0] == 'unc':
+            cache = None
+        elif t[0] == 'eo':
+            if not is_proxy:
+                data = [ref_edit(t[1], v) for v in data]
+        else:
+            raise ValueError(op)
+    return data
+
+
+def vals_to_strs(vals, in_name):
+    out = []
+    for v in vals:
+        if isinstance(v, str):
+            out.append(v)
+        elif in_name in FPREC:
+            f = float(v)
+            if Fr(f) != v:
+                raise HarnessError('value not representable')
+            out.append(f.hex())
+        else:
+            if v.denominator != 1:
+                raise HarnessError('non-integer value for an integer dtype')
+            out.append(str(v.numerator))
+    return out
+
+
+def rt_expect(d):
+    """what the case's image holds when it is saved, by the references above: dict(load_err, in_eff, vals0, vals)"""
+    if d['src'] == 'disk':
+        si = ref_proxy_si(HK_OF[d['dkls']], d['F'][0], d['F'][1], d.get('gl'))
+        if si is None:
+            return {'load_err': True}
+        s, b = si
+        raw = [Fr(int(q)) for q in d['vals']]
+        if (s, b) == (1, 0):
+            in_eff = d['in']
+        else:
+            in_eff = 'float32' if (HK_OF[d['dkls']] == 'spm99' and working_prec(d['in']) == 24) else 'float64'
+        vals0 = [q * s + b for q in raw]
+        is_proxy, arr_dt = True, None
+    else:
+        in_eff = d['in']
+        vals0 = [parse_val(v, in_eff) for v in d['vals']]
+        is_proxy, arr_dt = False, (in_eff if in_eff in FPREC else None)
+    vals = ref_history(d.get('pre') or [], is_proxy, arr_dt, vals0)
+    return {'load_err': False, 'in_eff': in_eff, 'vals0': vals0, 'vals': vals}
+
+
+def mk_rd(kls, sF, iF, gl):
+    hk = HK_OF[kls]
+    line = f'C02 rd {hk} {sF} {iF} ' + ('_' if gl is None else ':'.join(gl))
+    data = {'op': 'rd', 'kls': kls, 'F': [sF, iF], 'gl': None if gl is None else list(gl), 'stream': 'readers'}
+    return Case(line, data, ('rd', kls, sF, iF, tuple(gl or ())), 'readers')
+
+
+def mk_rt(kls, dkls, route, via, F, gl, post, pre, src, in_name, vals, hd, arg, how, stream='rt'):
+    """see the section comment.  `in_name` / `vals`: src 'arr' = array dtype / value strings; src 'disk' = raw integer
+    dtype / raw integers of a `dkls` file whose header carries the raw fields `F` (+ `gl`)."""
+    hk = HK_OF[kls]
+    dhk, mF = model_donor(dkls, F)
+    if dkls == MGH_KLS and (src != 'arr' or route == 'same' or gl is not None):
+        raise HarnessError('MGH is a donor of in-memory headers / images only')
+    cls = CLS_OF_HK[hk]
+    out_name = arg or hd
+    if out_name in FPREC:
+        raise HarnessError('observed save must have an integer on-disk type')
+    if route == 'same' and kls != dkls:
+        raise HarnessError('route same needs one class')
+    d = {'op': 'rt', 'cls': cls, 'kls': kls, 'dkls': dkls, 'route': route, 'via': via, 'F': list(F),
+         'gl': None if gl is None else list(gl), 'post': post, 'pre': list(pre), 'src': src, 'in': in_name,
+         'vals': list(vals), 'hd': hd, 'arg': arg, 'out': out_name, 'how': how, 'stream': stream}
+    ex = rt_expect(d)
+    lvl = None
+    need = True
+    if not ex['load_err']:
+        vs = vals_to_strs(ex['vals'], ex['in_eff'])          # (raises HarnessError when not representable)
+        vals_to_strs(ex['vals0'], ex['in_eff'])
+        pv = [parse_val(v, ex['in_eff']) for v in vs]
+        if exact_case(cls, ex['in_eff'], out_name, pv):
+            lvl = 'full'
+        elif var_eligible(cls, ex['in_eff'], out_name, pv):
+            lvl = 'dec'
+        need = scaling_needed(ex['in_eff'], out_name, pv) or d['src'] == 'disk' or bool(pre)
+    else:
+        lvl = 'full'
+    d['lvl'] = lvl
+    line = None
+    if lvl:
+        data_tok = (','.join(str(int(q)) for q in vals) if src == 'disk'
+                    else line_vals([parse_val(v, in_name) for v in vals]))
+        line = (f'C02 {"rt" if lvl == "full" else "rtd"} {hk} {dhk} {route} {mF[0]} {mF[1]} '
+                + ('_' if gl is None else ':'.join(gl)) + f' {post or "_"} ' + (';'.join(pre) if pre else '_')
+                + f' {src} {in_token(in_name)} {dt_token(hd)} {"_" if arg is None else dt_token(arg)} {data_tok or "-"}')
+    key = ('rt', kls, dkls, route, via, tuple(F), tuple(gl or ()), post, tuple(pre), src, in_name, tuple(vals), hd, arg,
+           how) if need else None
+    return Case(line, d, key, stream)
+
+
+class _quiet_logs:
+    """header conversions log "sizeof_hdr should be 540" and the like through the `nibabel.global` logger"""
+    def __enter__(self):
+        import logging
+        self.lg = logging.getLogger('nibabel.global')
+        self.old = self.lg.level
+        self.lg.setLevel(logging.CRITICAL)
+
+    def __exit__(self, *a):
+        self.lg.setLevel(self.old)
+        return False
+
+
+def apply_edit(e, a):
+    if e == 'zero':
+        a[...] = 0
+    elif e == 'clip0':
+        np.clip(a, 0, None, out=a)
+    elif e == 'neg':
+        np.negative(a, out=a)
+    else:
+        raise ValueError(e)
+
+
+def _set_raw_fields(klass, hdr, F, gl):
+    n1, n2 = slot_names(klass)
+    hdr[n1] = fld_float(F[0])
+    hdr[n2] = fld_float(F[1])
+    if gl is not None:
+        names = hdr.template_dtype.names
+        for name, v in zip(('glmax', 'glmin', 'cal_max', 'cal_min'), gl):
+            if name in names:
+                hdr[name] = float(Fr(v))
+
+
+def run_rt(d, case):
+    import tempfile
+    import nibabel as nib
+    from nibabel.openers import ImageOpener
+    K, DK = _kls(d['kls']), _kls(d['dkls'])
+    aff = np.eye(4)
+    extra = {}
+    with warnings.catch_warnings(), _quiet_logs():
+        warnings.simplefilter('ignore')
+        if d['src'] == 'disk':
+            # a DK file holding the raw integers, whose header carries the raw fields (patched into the header bytes)
+            raw = np.array([int(q) for q in d['vals']], dtype=np.dtype(d['in'])).reshape((-1, 1, 1))
+            fm0 = _bytes_map(DK)
+            DK(raw, aff).to_file_map(fm0)
+            hfh, ifh = DK._get_fileholders(fm0)
+            hf = hfh.fileobj
+            blob = bytearray(hf.getvalue())
+            h0 = DK.header_class.from_fileobj(io.BytesIO(bytes(blob)), check=False)
+            _set_raw_fields(DK, h0, d['F'], d.get('gl'))
+            bb = h0.binaryblock
+            blob[:len(bb)] = bb
+            same = ifh.fileobj is hf
+            hfh.fileobj = io.BytesIO(bytes(blob))
+            if same:
+                ifh.fileobj = hfh.fileobj
+            try:
+                donor = DK.from_file_map(fm0)
+            except Exception as e:
+                return canon_err(e) + '@load'
+            rawhdr = DK.header_class.from_fileobj(io.BytesIO(bytes(blob)))
+            rawhdr.set_data_offset(0)      # (a single-file offset makes conversion to another flavour refuse loudly)
+            loaded = np.asanyarray(donor.dataobj)
+            extra['loaded'] = [val_str(x, loaded.dtype.name) if loaded.dtype.kind == 'f' else str(int(x))
+                               for x in loaded.ravel()]
+            extra['loaded_dtype'] = loaded.dtype.name
+            dataobj = donor.dataobj
+        else:
+            data = np_array(d['in'], d['vals']).reshape((-1, 1, 1))
+            h0 = DK.header_class()
+            h0.set_data_dtype(np.dtype(d['hd']))
+            if d['dkls'] != MGH_KLS:
+                _set_raw_fields(DK, h0, d['F'], d.get('gl'))
+            bio = io.BytesIO()
+            h0.write_to(bio)
+            bio.seek(0)
+            rawhdr = DK.header_class.from_fileobj(bio)          # a header as read from a file
+            if d['dkls'] != MGH_KLS:
+                rawhdr.set_data_offset(0)
+            donor = None
+            dataobj = data
+        via = d['via']
+        if d['route'] == 'same':
+            img = donor if d['src'] == 'disk' else K(dataobj, aff, rawhdr)
+        elif d['route'] == 'fromimage':
+            if donor is None:
+                donor = DK(dataobj, aff, rawhdr)
+            img = K.from_image(donor) if via == 'from_image' else K(donor.dataobj, aff, header=donor.header)
+        else:
+            img = (K(dataobj, aff, header=rawhdr) if via == 'hdr'
+                   else K(dataobj, aff, K.header_class.from_header(rawhdr)))
+        img.set_data_dtype(np.dtype(d['hd']))
+        if d.get('post') is not None:
+            img.header[slot_names(K)[1]] = fld_float(d['post'])
+        last = None
+        for op in d.get('pre') or []:
+            t = op.split('.')
+            if t[0] == 'fd':
+                last = img.get_fdata(caching='fill' if t[2] == '1' else 'unchanged', dtype=np.dtype(FT_NAME[t[1]]))
+            elif t[0] == 'ed':
+                if last is not None:
+                    apply_edit(t[1], last)
+            elif t[0] == 'unc':
+                img.uncache()
+            elif t[0] == 'eo':
+                a = np.asanyarray(img.dataobj)
+                if not a.flags.writeable:
+                    a = a.copy()
+                apply_edit(t[1], a)
+    if case is not None:
+        case.extra = extra
+    if extra.get('loaded_dtype') is not None:
+        ex = rt_expect(d)
+        if extra['loaded_dtype'] != ex['in_eff']:
+            return 'ERR:loaded-dtype-' + extra['loaded_dtype']
+    kw = {} if d['arg'] is None else {'dtype': np.dtype(d['arg'])}
+    how = d.get('how', 'tfm')
+    with tempfile.TemporaryDirectory() if how == 'fn' else io.BytesIO() as tmp, warnings.catch_warnings(record=True) as wl:
+        warnings.simplefilter('always')
+        try:
+            if how == 'tfm':
+                fm = _bytes_map(K)
+                img.to_file_map(fm, **kw)
+                back = K.from_file_map(fm)
+                hbytes = K._get_fileholders(fm)[0].fileobj.getvalue()
+            elif how == 'bytes':
+                hbytes = img.to_bytes(**kw)
+                back = K.from_bytes(hbytes)
+            else:
+                path = os.path.join(tmp, 'c02' + KLS_EXT[d['kls']][0])
+                img.to_filename(path, **kw)
+                back = K.from_filename(path)
+                with ImageOpener(K._get_fileholders(K.filespec_to_file_map(path))[0].filename, 'rb') as f:
+                    hbytes = f.read()
+        except Exception as e:
+            return canon_err(e) + ' ' + rt_header_state(K, img)
+        dh = K.header_class.from_fileobj(io.BytesIO(hbytes), check=False)
+        n1, n2 = slot_names(K)
+        d1, d2 = float(dh[n1]), float(dh[n2])
+        raw = unravel(back.dataobj.get_unscaled(), d)
+        reloaded = unravel(back.dataobj, d)
+        s, b = float(back.dataobj.slope), float(back.dataobj.inter)
+    hs = rt_header_state(K, img)
+    if raw.dtype.newbyteorder('=') != np.dtype(d['out']):
+        return 'ERR:on-disk-dtype-' + raw.dtype.name + ' ' + hs
+    if not (math.isfinite(s) and math.isfinite(b)):
+        return f'ERR:nonfinite-scaling-{s}-{b} ' + hs
+    extra['reloaded'] = reloaded
+    dec = d.get('lvl') == 'dec'
+    hc = K.header_class
+    f1 = fld_kind(d1) if (dec and hc.has_data_slope) else fld_str(d1)
+    f2 = fld_kind(d2) if (dec and hc.has_data_intercept) else fld_str(d2)
+    return (f'ok {fr_str(Fr(s))} {fr_str(Fr(b))} [' + ','.join(str(int(q)) for q in raw) + ']' + cast_warning(wl)
+            + f' D {f1} {f2} ' + hs)
+
+
+def rt_header_state(K, img):
+    n1, n2 = slot_names(K)
+    dt = np.dtype(img.get_data_dtype()).newbyteorder('=').name
+    return f'H {dt_token(dt)} {fld_str(img.header[n1])} {fld_str(img.header[n2])}'
+
+
+def impl_rt(case):
+    d = case.data
+    out = run_rt(d, case)
+    if d.get('lvl') == 'dec' and out.startswith('ok '):
+        res, sep, tail = out.partition(' D ')
+        case.extra = dict(case.extra or {}, full=res)
+        if ' W:' not in res:
+            s, b, _, _ = parse_ok(res)
+            res = f'ok {1 if s == 1 else 0} {1 if b == 0 else 0} {"+" if s > 0 else "-"}'
+        return res + sep + tail
+    if d.get('lvl') == 'dec' and out.startswith('ERR') and '@load' not in out:
+        res, sep, tail = out.partition(' H ')
+        return res.split(' ')[0] + sep + tail
+    return out
+
+
+def run_rd(d):
+    import nibabel as nib
+    K = getattr(nib, d['kls'])
+    with warnings.catch_warnings():
+        warnings.simplefilter('ignore')
+        h0 = K.header_class()
+        _set_raw_fields(K, h0, d['F'], d.get('gl'))
+        bio = io.BytesIO()
+        h0.write_to(bio)
+        bio.seek(0)
+        h = K.header_class.from_fileobj(bio)
+        try:
+            s, b = h.get_slope_inter()
+        except Exception as e:
+            return canon_err(e)
+    f = lambda x: 'N' if x is None else fld_str(x)
+    return f'{f(s)} {f(b)}'
+
+
+def oracle_rd(case, out):
+    d = case.data
+    exp = ref_read_si(HK_OF[d['kls']], d['F'][0], d['F'][1], d.get('gl'))
+    f = lambda x: 'N' if x is None else fr_str(x)
+    want = 'ERR:HeaderDataError' if exp == 'err' else f'{f(exp[0])} {f(exp[1])}'
+    if out == want:
+        return None
+    return (f'{d["kls"]} header with scale fields {d["F"]} (gl/cal {d.get("gl")}) is read as ({out}); the format '
+            f'description says ({want}): every value reloaded from such a file is off by the difference')
+
+
+def oracle_rt(case, out):
+    """the property on the real code for a route case: (1) a file loads as raw * slope + inter by the reference reader
+    table (or is refused loudly exactly where the format description says so); (2) whatever the image went through
+    before the save — how its header was obtained, get_fdata working copies, their edits — the save meets the SAME bound
+    as a plain save of the data the image holds (reference aliasing semantics), judged on the slope / intercept the
+    reader of the target class gets back from disk."""
+    d = case.data
+    ex = rt_expect(d)
+    head = out.split(' H ')[0]
+    res = head.split(' D ')[0]
+    if res.endswith('@load'):
+        return None if ex['load_err'] else f'loading a {d["dkls"]} file with scale fields {d["F"]} raised {res}'
+    if ex['load_err']:
+        return (f'a {d["dkls"]} file with a valid slope and the non-finite intercept {d["F"][1]} was loaded without the '
+                f'documented refusal')
+    if res.startswith('ERR:loaded-dtype'):
+        return None                      # (correspondence only: NumPy promotion of the loaded array)
+    xt = case.extra if isinstance(case.extra, dict) else {}
+    if d['src'] == 'disk' and xt.get('loaded') is not None:
+        got = [parse_val(v, xt['loaded_dtype']) for v in xt['loaded']]
+        if got != ex['vals0']:
+            i = next(j for j, (a, b) in enumerate(zip(got, ex['vals0'])) if a != b) if len(got) == len(ex['vals0']) else 0
+            return (f'reader: {d["dkls"]} file with raw value {d["vals"][i]} and scale fields {d["F"]} (gl/cal '
+                    f'{d.get("gl")}) loads as {got[i] if got else None!s}, raw * slope + inter is {ex["vals0"][i]!s}')
+    if d.get('lvl') == 'dec' and xt.get('full') is not None:
+        res = xt['full']
+    shim = Case(None, {'op': 'save', 'cls': d['cls'], 'in': ex['in_eff'], 'out': d['out'],
+                       'vals': vals_to_strs(ex['vals'], ex['in_eff']), 'stream': d['stream']}, None, d['stream'],
+                {'reloaded': xt.get('reloaded')} if xt.get('reloaded') is not None else None)
+    return oracle_save(shim, res)
+
+
+FLD_SLOPES = ['2', '-1/2', '1', '3/4', '0', 'nan', 'inf', '-inf']
+FLD_INTERS = ['3/4', '-10', '0', 'nan', 'inf', '-inf']
+GLS = [None, ('10', '2', '3', '1'), ('5', '5', '3', '1'), ('10', '2', '1', '1'), ('-6', '2', '-1/2', '1')]
+
+
+def gen_readers():
+    """EXHAUSTIVE: every header class x slope field state x intercept field state (x gl/cal fallback states for SPM2)"""
+    out = []
+    for kls in ALL_KLS:
+        for sF in FLD_SLOPES:
+            for iF in FLD_INTERS:
+                for gl in (GLS if HK_OF[kls] == 'spm2' else [None]):
+                    out.append(mk_rd(kls, sF, iF, gl))
+    return out
+
+
+def rand_fld(rng, kind):
+    r = rng.random()
+    if kind == 'slope':
+        if r < 0.6:
+            return fr_str(Fr(rng.choice([1, 3, 5, 7, 25, 127]) * rng.choice([1, 1, -1]), 2 ** rng.randrange(0, 9)) *
+                          2 ** rng.randrange(0, 5))
+        return rng.choice(['0', 'nan', 'inf', '-inf', '1', '1'])
+    if r < 0.5:
+        return fr_str(Fr(rng.randrange(-2 ** 12, 2 ** 12), 2 ** rng.randrange(0, 5)))
+    return rng.choice(['0', '0', 'nan', 'nan', 'inf', '-inf'])
+
+
+PRE_FD = ['fd.f64.1', 'fd.f64.1', 'fd.f32.1', 'fd.f16.1', 'fd.f64.0', 'fd.f32.0', 'fd.f16.0']
+
+
+def rand_pre(rng, ints_only_safe):
+    if rng.random() < 0.4:
+        return []
+    ops = [rng.choice(PRE_FD)]
+    edits = ['zero', 'clip0'] if ints_only_safe else ['zero', 'clip0', 'clip0', 'neg']
+    for _ in range(rng.randrange(0, 4)):
+        r = rng.random()
+        if r < 0.4:
+            ops.append('ed.' + rng.choice(edits))
+        elif r < 0.7:
+            ops.append(rng.choice(PRE_FD))
+        elif r < 0.85:
+            ops.append('unc')
+        else:
+            ops.append('eo.' + rng.choice(edits))
+    return ops
+
+
+def rt_variant(rng, c):
+    """re-run the class / on-disk type (and, for array sources, the values) of a save case through a construction
+    route x donor header state x pre-save history; ~45% of the cases take their data from a crafted FILE instead."""
+    d = c.data
+    cls = d['cls']
+    if cls == 'mgh' or d['op'] not in ('save', 'var'):
+        return None
+    kls = rng.choice(KLS[cls])
+    hk = HK_OF[kls]
+    sup = supported_dtypes(kls)
+    out_name = d['out']
+    if out_name not in sup:
+        return None
+    if rng.random() < 0.5:
+        dkls, route = kls, 'same'
+    else:
+        dkls = rng.choice(ALL_KLS + [MGH_KLS])
+        route = rng.choice(['fromimage', 'hdrraw']) if dkls != kls else rng.choice(['same', 'fromimage', 'hdrraw'])
+    dsup = MGH_TYPES if dkls == MGH_KLS else supported_dtypes(dkls)
+    both = [t for t in sup if t in dsup]
+    via = {'same': 'ctor', 'fromimage': rng.choice(['from_image', 'from_image', 'hdrimg']),
+           'hdrraw': rng.choice(['hdr', 'from_header'])}[route]
+    src = 'disk' if (rng.random() < 0.45 and dkls != MGH_KLS) else 'arr'
+    dhk = model_donor(dkls, ['0', '0'])[0]
+    F = [rand_fld(rng, 'slope'), rand_fld(rng, 'inter')]
+    if rng.random() < 0.25:
+        F = ['nan', 'nan'] if dhk == 'nifti' else ['nan', '0'] if rng.random() < 0.5 else ['1', '0']    # ordinary states
+    gl = None
+    if dhk == 'spm2' and src == 'disk' and rng.random() < 0.5:
+        gl = rng.choice(GLS[1:])
+        if rng.random() < 0.7:
+            F[0] = rng.choice(['0', 'nan', 'inf'])
+    post = None
+    if hk != 'nifti' and rng.random() < 0.2:
+        post = rand_fld(rng, 'inter')
+    if src == 'disk':
+        ints = [t for t in both if t not in FPREC]
+        if not ints:
+            return None
+        in_name = rng.choice(ints)
+        lo, hi = irange(in_name)
+        lo, hi = max(lo, -2 ** 15), min(hi, 2 ** 15)
+        vals = [str(rng.choice([lo, hi, 0, rng.randrange(lo, hi + 1), rng.randrange(lo, hi + 1)]))
+                for _ in range(rng.randrange(2, 7))]
+        hd = in_name                            # (a loaded image's header holds the file's data type)
+        if rng.random() < 0.3 and route != 'same':
+            hd = rng.choice(both)
+    else:
+        in_name, vals = d['in'], d['vals']
+        if len(vals) > 12:
+            vals = vals[:12]
+        if dkls == MGH_KLS and route == 'fromimage' and in_name == 'float16':
+            return None                         # (an MGH image cannot hold a float16 array)
+        hd = rng.choice(both) if rng.random() < 0.5 else (out_name if out_name in both else rng.choice(both))
+    arg = None if (hd == out_name and rng.random() < 0.6) else out_name
+    pre = rand_pre(rng, in_name not in FPREC or src == 'disk')
+    if src == 'disk':
+        pre = [p for p in pre if not p.startswith('eo.') or True]
+    how = rng.choice(['tfm', 'tfm', 'fn'] + (['bytes'] if kls in SINGLE_FILE else []))
+    try:
+        t = mk_rt(kls, dkls, route, via, F, gl, post, pre, src, in_name, vals, hd, arg, how)
+    except (HarnessError, OverflowError):
+        return None
+    t.stream = t.data['stream'] = {'full': 'rt-exact', 'dec': 'rt-decisions', None: 'rt-general'}[t.data['lvl']]
+    return t
+
+
 def cases(rng, tier):
     n = {'quick': 1, 'thorough': 30, 'search': 4}[tier]
     out = []
@@ -1708,10 +2387,114 @@ def cases(rng, tier):
     out += [t for t in (tfm_variant(rng2, c) for c in saves if rng2.random() < 0.55) if t is not None]
     out += gen_fr(rng, [c for c in saves if rng.random() < 0.3])
     out += gen_a2f(rng, 600 * n)
+    # header readers on every field state (exhaustive), and construction routes x donor header states x files written
+    # with scaling x pre-save get_fdata histories
+    out += gen_readers()
+    rng3 = __import__('random').Random(rng2.random())
+    share = 0.3 if tier == 'quick' else 0.15
+    out += [t for t in (rt_variant(rng3, c) for c in saves if rng3.random() < share) if t is not None]
     return out
 
 
 # --------------------------------------------------------------------------- regenerated table (Leg T)
+
+def lean_q(s):
+    """rational string -> `q n d` (helper defined in the generated file: cheap to elaborate)"""
+    x = Fr(s)
+    return f'q ({x.numerator}) {x.denominator}'
+
+
+def lean_fld(x):
+    s = fld_str(x)
+    return {'nan': '.nan', 'inf': '.pinf', '-inf': '.ninf'}.get(s) or f'.fin ({lean_q(s)})'
+
+
+def regen_readers():
+    """Generated/C02Readers.lean: the decision tables of the header classes as the working tree has them NOW — slot names
+    and defaults, `from_header` between every ordered pair of classes, the constructor reset `set_slope_inter(None,
+    None)`, `set_slope_inter(s, b)`, and `get_slope_inter` on every combination of field states — each with a theorem
+    (by evaluation) that the model function agrees on every row."""
+    import nibabel as nib
+    rows_slot, rows_conv, rows_reset, rows_set, rows_read = [], [], [], [], []
+    flds = lambda K, h: (float(h[slot_names(K)[0]]), float(h[slot_names(K)[1]]))
+    with warnings.catch_warnings(), _quiet_logs():
+        warnings.simplefilter('ignore')
+        for kls in ALL_KLS:
+            K = getattr(nib, kls)
+            hk = HK_OF[kls]
+            n1, n2 = slot_names(K)
+            d1, d2 = flds(K, K.header_class())
+            rows_slot.append(f'  (.{hk}, {"true" if n1 == "scl_slope" else "false"}, {"true" if n2 == "scl_inter" else "false"}, '
+                             f'{lean_fld(d1)}, {lean_fld(d2)})')
+            for dkls in ALL_KLS:
+                DK = getattr(nib, dkls)
+                for F in (('3', '7'), ('nan', 'inf')):
+                    h = DK.header_class()
+                    _set_raw_fields(DK, h, F, None)
+                    c = K.header_class.from_header(h)
+                    a, b = flds(K, c)
+                    rows_conv.append(f'  (.{HK_OF[dkls]}, .{hk}, {lean_fld(fld_float(F[0]))}, {lean_fld(fld_float(F[1]))}, '
+                                     f'{lean_fld(a)}, {lean_fld(b)})')
+            for sF in ('2', 'nan', 'inf', '0'):
+                for iF in ('3/4', 'nan', '-inf', '0'):
+                    h = K.header_class()
+                    _set_raw_fields(K, h, (sF, iF), None)
+                    h.set_slope_inter(None, None)
+                    a, b = flds(K, h)
+                    rows_reset.append(f'  (.{hk}, {lean_fld(fld_float(sF))}, {lean_fld(fld_float(iF))}, {lean_fld(a)}, {lean_fld(b)})')
+                    for (s_, b_) in (('2', '0'), ('2', '3/4'), ('1', '0'), ('0', '0'), ('-1/2', '0')):
+                        h = K.header_class()
+                        _set_raw_fields(K, h, (sF, iF), None)
+                        try:
+                            h.set_slope_inter(float(Fr(s_)), float(Fr(b_)))
+                            a, b = flds(K, h)
+                            res = f'some ({lean_fld(a)}, {lean_fld(b)})'
+                        except Exception:
+                            res = 'none'
+                        rows_set.append(f'  (.{hk}, {lean_q(s_)}, {lean_q(b_)}, {lean_fld(fld_float(sF))}, {lean_fld(fld_float(iF))}, {res})')
+            for sF in FLD_SLOPES:
+                for iF in FLD_INTERS:
+                    for gl in (GLS if hk == 'spm2' else [None]):
+                        out = run_rd({'kls': kls, 'F': [sF, iF], 'gl': gl})
+                        g = '.zero' if gl is None else f'⟨{gl[0]}, {gl[1]}, {lean_q(gl[2])}, {lean_q(gl[3])}⟩'
+                        if out.startswith('ERR'):
+                            res = 'none'
+                        else:
+                            a, b = out.split(' ')
+                            res = (f'some ({"none" if a == "N" else "some (" + lean_q(a) + ")"}, '
+                                   f'{"none" if b == "N" else "some (" + lean_q(b) + ")"})')
+                        rows_read.append(f'  (.{hk}, {lean_fld(fld_float(sF))}, {lean_fld(fld_float(iF))}, {g}, {res})')
+    ded = lambda rows: list(dict.fromkeys(rows))
+    return ('import NibabelModel.Model.C02_Route\n'
+            '/-! GENERATED by harness/props/c02.py regen() from /repo on every run — do not edit.\n'
+            '    Decision tables of the Analyze-family header classes (' + ', '.join(ALL_KLS) + ') evaluated on the\n'
+            '    working tree, and the proof (by evaluation) that the model functions of Model/C02_Route agree on every row. -/\n'
+            'namespace Nb.C02.Gen\n\n'
+            'def q (n : Int) (d : Nat) : Rat := mkRat n d\n\n'
+            '/-- (class, slot 1 is called scl_slope, slot 2 is called scl_inter, default slot 1, default slot 2) -/\n'
+            'def slotTable : List (HK × Bool × Bool × Fld × Fld) := [\n' + ',\n'.join(ded(rows_slot)) + ']\n\n'
+            'theorem slot_table_ok : ∀ r ∈ slotTable,\n'
+            '    r.1.slot1Scl = r.2.1 ∧ r.1.slot2Scl = r.2.2.1 ∧ r.1.default = ⟨r.2.2.2.1, r.2.2.2.2⟩ := by\n  decide +kernel\n\n'
+            '/-- (donor class, target class, donor fields, fields of `target.from_header(donor)`) -/\n'
+            'def convTable : List (HK × HK × Fld × Fld × Fld × Fld) := [\n' + ',\n'.join(ded(rows_conv)) + ']\n\n'
+            'theorem conv_table_ok : ∀ r ∈ convTable,\n'
+            '    convert r.1 r.2.1 ⟨r.2.2.1, r.2.2.2.1⟩ = ⟨r.2.2.2.2.1, r.2.2.2.2.2⟩ := by\n  decide +kernel\n\n'
+            '/-- (class, fields before, fields after `set_slope_inter(None, None)`) -/\n'
+            'def resetTable : List (HK × Fld × Fld × Fld × Fld) := [\n' + ',\n'.join(ded(rows_reset)) + ']\n\n'
+            'theorem reset_table_ok : ∀ r ∈ resetTable,\n'
+            '    ctorReset r.1 ⟨r.2.1, r.2.2.1⟩ = ⟨r.2.2.2.1, r.2.2.2.2⟩ := by\n  decide +kernel\n\n'
+            '/-- (class, s, b, fields before, fields after `set_slope_inter(s, b)` or none = refused) -/\n'
+            'def setTable : List (HK × Rat × Rat × Fld × Fld × Option (Fld × Fld)) := [\n' + ',\n'.join(ded(rows_set)) + ']\n\n'
+            'theorem set_table_ok : ∀ r ∈ setTable,\n'
+            '    ((setSIF r.1 r.2.1 r.2.2.1 ⟨r.2.2.2.1, r.2.2.2.2.1⟩).toOption.map fun f => (f.slope, f.inter)) = r.2.2.2.2.2 := by\n'
+            '  decide +kernel\n\n'
+            '/-- (class, slope field, intercept field, gl / cal fields, `get_slope_inter()` or none = HeaderDataError) -/\n'
+            'def readerTable : List (HK × Fld × Fld × GlCal × Option (Option Rat × Option Rat)) := [\n'
+            + ',\n'.join(ded(rows_read)) + ']\n\n'
+            'theorem reader_table_ok : ∀ r ∈ readerTable,\n'
+            '    (readSI r.1 ⟨r.2.1, r.2.2.1⟩ r.2.2.2.1).toOption = r.2.2.2.2 := by\n  decide +kernel\n\n'
+            'end Nb.C02.Gen\n')
+
 
 def regen():
     """Generated/C02Types.lean: the integer type ranges (np.iinfo) and the shared ranges nibabel computes NOW for
@@ -1759,4 +2542,5 @@ def regen():
             '  decide\n\n'
             'end Nb.C02.Gen\n')
     write_if_changed(os.path.join(LEAN, 'NibabelModel', 'Generated', 'C02Caps.lean'), csrc)
+    write_if_changed(os.path.join(LEAN, 'NibabelModel', 'Generated', 'C02Readers.lean'), regen_readers())
     return []     # the obligation over the generated table is audited as a THEOREM (Nb.C02.Gen.shared_table_ok)
